@@ -12,8 +12,24 @@ use crate::ssim::{CAP_BASE10, CAP_JUNOS};
 
 const KINDS: [Kind; 3] = [Kind::Tls, Kind::Ssh, Kind::Local];
 
+#[derive(Clone, Copy, Debug, PartialEq, Eq)]
+pub enum Mode {
+    /// C18: reply futures are dropped between deliveries
+    DropReaders,
+    /// C05: nothing is dropped; the replies arrive as one byte stream cut at seeded positions, so
+    /// that several complete replies can arrive in one delivery
+    Coalesced,
+    /// C10: request #0 is large (70-400 KiB); the peer must receive every request complete,
+    /// well-formed and exactly once
+    BigRequest,
+}
+
 pub fn run(ctx: &mut Ctx) -> Verdict {
-    let kind = KINDS[ctx.tape.weighted(&[6, 6, 2])];
+    run_mode(ctx, Mode::DropReaders)
+}
+
+pub fn run_mode(ctx: &mut Ctx, mode: Mode) -> Verdict {
+    let kind = KINDS[ctx.tape.weighted(&[6, 6, if mode == Mode::DropReaders { 2 } else { 5 }])];
     let n = 2 + ctx.pick(3);
     // delivery order of the replies
     let mut order: Vec<usize> = (0..n).collect();
@@ -21,28 +37,44 @@ pub fn run(ctx: &mut Ctx) -> Verdict {
         order.swap(i, ctx.pick(i + 1));
     }
     let mut chunks: Vec<Vec<u8>> = Vec::new();
-    for &k in &order {
-        let len = match ctx.tape.weighted(&[4, 2, 1]) {
-            0 => 110 + ctx.pick(200),
-            1 => 1000 + ctx.pick(100),
-            _ => 3000 + ctx.pick(3000),
-        };
-        let r = reply_msg(k + 1, len);
-        let pieces = 1 + ctx.tape.weighted(&[2, 4, 2]);
-        let mut cuts: Vec<usize> = (1..pieces).map(|_| 1 + ctx.pick(r.len() - 1)).collect();
+    if mode == Mode::DropReaders {
+        for &k in &order {
+            let len = match ctx.tape.weighted(&[4, 2, 1]) {
+                0 => 110 + ctx.pick(200),
+                1 => 1000 + ctx.pick(100),
+                _ => 3000 + ctx.pick(3000),
+            };
+            let r = reply_msg(k + 1, len);
+            let pieces = 1 + ctx.tape.weighted(&[2, 4, 2]);
+            let mut cuts: Vec<usize> = (1..pieces).map(|_| 1 + ctx.pick(r.len() - 1)).collect();
+            cuts.sort_unstable();
+            cuts.dedup();
+            let mut at = 0;
+            for c in cuts {
+                chunks.push(r[at..c].to_vec());
+                at = c;
+            }
+            chunks.push(r[at..].to_vec());
+        }
+    } else {
+        // one byte stream, 0-3 cuts anywhere: with no cut every reply arrives in one delivery
+        let stream: Vec<u8> = order.iter().flat_map(|&k| reply_msg(k + 1, 110 + ctx.pick(300))).collect();
+        let mut cuts: Vec<usize> = (0..ctx.tape.weighted(&[3, 3, 2, 1])).map(|_| 1 + ctx.pick(stream.len() - 1)).collect();
         cuts.sort_unstable();
         cuts.dedup();
         let mut at = 0;
         for c in cuts {
-            chunks.push(r[at..c].to_vec());
+            chunks.push(stream[at..c].to_vec());
             at = c;
         }
-        chunks.push(r[at..].to_vec());
+        chunks.push(stream[at..].to_vec());
     }
-    let ndrops = if n >= 3 && ctx.pick(3) == 0 { 2 } else { 1 };
+    let ndrops = if mode != Mode::DropReaders { 0 } else if n >= 3 && ctx.pick(3) == 0 { 2 } else { 1 };
     let mut drops: Vec<(usize, usize)> = Vec::new(); // (before chunk index, request)
     let first = ctx.pick(n);
-    drops.push((ctx.pick(chunks.len() + 1), first));
+    if ndrops >= 1 {
+        drops.push((ctx.pick(chunks.len() + 1), first));
+    }
     if ndrops == 2 {
         // a different request (no rejection loop: a replayed, shortened tape yields zeros for ever)
         let second = (first + 1 + ctx.pick(n - 1)) % n;
@@ -67,13 +99,14 @@ pub fn run(ctx: &mut Ctx) -> Verdict {
     steps.push(Step::WaitClientMessages(2 + n));
     steps.push(Step::Chunk(reply_msg(n + 1, 130)));
     steps.push(Step::SleepMs(2));
-    let label = format!("drop-reader: {n} requests, delivery order {order:?}, {} chunks {:?}, drops (before chunk, request) {drops:?}", chunks.len(), chunks.iter().map(Vec::len).collect::<Vec<_>>());
-    let sc = Scenario { kind, steps, requests: n, extra_request: true, label, bad_credentials: false, password: crate::rsim::SSH_PASSWORD.to_string() };
+    let big_request = if mode == Mode::BigRequest { 70_000 + ctx.pick(330_000) } else { 0 };
+    let label = format!("{mode:?} (request #0 carries {big_request} extra bytes): {n} requests, delivery order {order:?}, {} chunks {:?}, drops (before chunk, request) {drops:?}", chunks.len(), chunks.iter().map(Vec::len).collect::<Vec<_>>());
+    let sc = Scenario { kind, steps, requests: n, extra_request: true, label, bad_credentials: false, password: crate::rsim::SSH_PASSWORD.to_string(), big_request };
     ev!(ctx, "scenario {}/{}", kind.name(), sc.label);
     let o = run_scenario(ctx, &sc);
     ev!(ctx, "establish {:?} results {:?} dropped {:?} extra {:?} harness {:?}", o.establish, o.results, o.dropped, o.extra, o.harness_error);
     ctx.sim_time_ns = o.virt_ns;
-    ctx.nontrivial = !o.dropped.is_empty();
+    ctx.nontrivial = !o.dropped.is_empty() || mode != Mode::DropReaders;
     ctx.count(&format!("runs.real-transport.{}", kind.name()));
     ctx.count_n("fault.reply_future_dropped_on_real_transport", o.dropped.len() as u64);
     let t = kind.name();
@@ -83,6 +116,26 @@ pub fn run(ctx: &mut Ctx) -> Verdict {
     match &o.establish {
         Some(Res::Ok(_)) => {}
         other => return Verdict::violation(format!("establishment-failed/{t}"), format!("{}: {other:?}", sc.label)),
+    }
+    if mode == Mode::BigRequest {
+        // what the peer framed by the delimiter: the client hello, then every request exactly once, each well-formed
+        let reqs: Vec<&String> = o.client_messages.iter().filter(|m| m.contains("<rpc")).collect();
+        if reqs.len() != n + 1 {
+            return Verdict::violation(format!("not-exactly-one-message/{t}"), format!("{}: the peer framed {} requests for {} rpc() calls; results {:?}", sc.label, reqs.len(), n + 1, o.results));
+        }
+        for (i, m) in reqs.iter().enumerate() {
+            match crate::xml::parse(m) {
+                Ok(d) => {
+                    if i == 0 {
+                        let got = d.root.elems().next().and_then(|g| g.child("filter")).and_then(|f| f.elems().next()).and_then(|top| top.child("big")).map(crate::xml::Elem::text).unwrap_or_default();
+                        if got.len() < big_request || !got.bytes().all(|b| b.is_ascii_hexdigit()) {
+                            return Verdict::violation(format!("value-changed/{t}/big-filter"), format!("{}: the large filter arrived with {} bytes of text", sc.label, got.len()));
+                        }
+                    }
+                }
+                Err(e) => return Verdict::violation(format!("malformed-request/{t}"), format!("{}: request #{i} as framed by the peer is not well-formed: {e}; {} bytes", sc.label, m.len())),
+            }
+        }
     }
     for (k, r) in o.results.iter().enumerate() {
         let tag = format!("TAG-{}-", k + 1);
